@@ -2,6 +2,7 @@
 mod faults;
 mod gate;
 mod histcheck;
+mod malformed;
 mod reg;
 mod sread;
 mod sweep;
@@ -43,6 +44,15 @@ fn job_entries(prop: &str, thorough: bool) -> Vec<reg::Entry> {
             v.extend(reg::family("types"));
             v
         }
+        "C06" => {
+            let mut v = reg::family("lib");
+            v.extend(reg::family("types"));
+            v.extend(reg::family("hist").into_iter().step_by(8));
+            if thorough {
+                v.extend(reg::family("types_thorough").into_iter().step_by(16));
+            }
+            v
+        }
         "C05" => {
             let mut v = reg::all(false);
             if thorough {
@@ -72,12 +82,15 @@ fn job_child(prop: &str, thorough: bool, k: usize, n: usize, resume: (i64, u64))
     let entries = job_entries(prop, thorough);
     let hist = if matches!(prop, "C03" | "C18") { Some(histcheck::Hist::new(thorough, &entries)) } else { None };
     let is_fault = matches!(prop, "C07" | "C08" | "C14");
-    let items = if is_fault { faults::items(prop, &entries, thorough) } else { hist.as_ref().map(|h| h.nodes.len()).unwrap_or(entries.len()) };
+    let items = if prop == "C06" {
+        malformed::items(&entries, thorough)
+    } else if is_fault { faults::items(prop, &entries, thorough) } else { hist.as_ref().map(|h| h.nodes.len()).unwrap_or(entries.len()) };
     for pos in 0..items {
         if pos % n != k || (pos as i64) < resume.0 {
             continue;
         }
         println!("B {}", pos);
+        let item_start = std::time::Instant::now();
         let mut st = sweep::Stats::default();
         let mut emit = |f: sweep::Finding| println!("F {}", violation_to_json(f.props, &f.v));
         let mut d = sweep::Driver {
@@ -87,7 +100,9 @@ fn job_child(prop: &str, thorough: bool, k: usize, n: usize, resume: (i64, u64))
             emit: &mut emit,
         };
         let sample;
-        if is_fault {
+        if prop == "C06" {
+            sample = malformed::run_item(&entries, thorough, pos, &mut d, &mut st);
+        } else if is_fault {
             sample = faults::run_item(prop, &entries, thorough, pos, &mut d, &mut st);
         } else if prop == "C05" {
             gate::pair_item(&entries, pos, &mut d, &mut st);
@@ -105,6 +120,9 @@ fn job_child(prop: &str, thorough: bool, k: usize, n: usize, resume: (i64, u64))
                 "first_value": vmodel::values::values(&e.ty, 8).first().map(valjson::to_json)});
         }
         println!("T {}", json!(st.0));
+        if std::env::var("VERIF_ITEM_TIMES").is_ok() {
+            eprintln!("ITEM-TIME {} {:.2}s {}", pos, item_start.elapsed().as_secs_f64(), sample.to_string().chars().take(120).collect::<String>());
+        }
         println!("X {}", sample);
     }
     std::process::exit(0)
@@ -145,10 +163,22 @@ fn run_sweep(run: &mut Run, prop: &'static str) -> Map<String, Value> {
                 vcommon::machinery_error(&format!("sweep child {} died without a recorded state: {} {}", c.worker, c.status, c.stderr_tail));
             }
             let msg = c.stderr_tail.lines().filter(|l| !l.starts_with("CRASH-STATE")).last().unwrap_or("").to_string();
+            let alloc_fail_huge = c
+                .stderr_tail
+                .split("memory allocation of ")
+                .nth(1)
+                .and_then(|x| x.split(' ').next())
+                .and_then(|x| x.parse::<u128>().ok())
+                .map(|n| n > (1 << 20))
+                .unwrap_or(false);
+            if prop == "C06" && (case["absurd_length"].as_bool() == Some(true) || alloc_fail_huge) && c.stderr_tail.contains("memory allocation of") {
+                g.1.add("C06.oom_exempt", 1);
+                return;
+            }
             // a crash belongs to the round-trip property, and to the packed-path property when
             // it happened in a bulk context
             let bulk = case["context"].as_str() != Some("Single");
-            if !(prop == "C01" || prop == "C03" || prop == "C18" || prop == "C05" || prop == "C07" || prop == "C08" || prop == "C14" || (prop == "C04" && bulk)) {
+            if !(prop == "C01" || prop == "C03" || prop == "C18" || prop == "C05" || prop == "C07" || prop == "C08" || prop == "C14" || prop == "C06" || (prop == "C04" && bulk)) {
                 return;
             }
             g.0.violation(vcommon::Violation {
@@ -193,7 +223,7 @@ fn main() {
         let resume_pos: i64 = args.extra.iter().position(|a| a == "--resume-after").map(|j| args.extra[j + 1].parse().unwrap()).unwrap_or(-1);
         let resume_sno: u64 = args.extra.iter().position(|a| a == "--resume-sno").map(|j| args.extra[j + 1].parse().unwrap()).unwrap_or(0);
         match prop {
-            "C01" | "C02" | "C04" | "C12" | "C03" | "C18" | "C05" | "C07" | "C08" | "C14" => job_child(prop, args.tier == Tier::Thorough, k, n, (resume_pos, resume_sno)),
+            "C01" | "C02" | "C04" | "C12" | "C03" | "C18" | "C05" | "C07" | "C08" | "C14" | "C06" => job_child(prop, args.tier == Tier::Thorough, k, n, (resume_pos, resume_sno)),
             _ => vcommon::machinery_error("no child mode for this property"),
         }
     }
@@ -208,6 +238,16 @@ fn main() {
             };
             cov.insert("rule".into(), json!(rule));
             cov.insert("distinct_nontrivial".into(), nontrivial);
+            cov
+        }
+        "C06" => {
+            let mut cov = run_sweep(&mut run, prop);
+            let n = cov.get("C06_inputs").and_then(|v| v.as_u64()).unwrap_or(0);
+            cov.insert("evaluations".into(), json!(n));
+            cov.insert("distinct_nontrivial".into(), json!(n));
+            cov.insert("rule".into(), json!("case = (type, api, context, one mutation of a valid encoding | byte string of length <= 2); every mutated input differs from the valid encoding"));
+            cov.remove("states");
+            cov.remove("traces_validated_against_impl");
             cov
         }
         "C07" | "C08" | "C14" => {
